@@ -1,0 +1,15 @@
+//go:build verif
+
+package stakepool
+
+import cstate "0chain.net/chaincore/chain/state"
+
+// VerifRandPoolIDs exposes getRandPools (a behaviour gated by the "demeter" hard fork through
+// cstate.WithActivation) to the verification harness: the delegate ids it selects. Add-only hook.
+func VerifRandPoolIDs(sp *StakePool, balances cstate.StateContextI, seed int64, n int) []string {
+	var ids []string
+	for _, p := range sp.getRandPools(balances, seed, n) {
+		ids = append(ids, p.DelegateID)
+	}
+	return ids
+}
